@@ -69,6 +69,122 @@ def sim(tag, consts, num, depth, seed):
     return traces, d
 
 
+TSPEC = os.path.join(VERIF, 'specs', 'Timers')
+TINVS = ['DeadPeerDetected', 'DetectedNotLate', 'NotEarly', 'NoFalseAlarm',
+         'CountBounded']
+
+
+def _tcfg(name, consts, invariants=(), view=True):
+    d = dict(I=3, Max=1, D=1, MaxTime=14, MaxData=2, ResetOnReplyOnly='TRUE')
+    d.update(consts)
+    lines = ['CONSTANTS'] + [f'  {k} = {v}' for k, v in d.items()]
+    lines += ['SPECIFICATION Spec', 'CHECK_DEADLOCK FALSE']
+    lines += [f'INVARIANT {i}' for i in invariants]
+    if view:
+        lines.append('VIEW view')
+    with open(os.path.join(TSPEC, name), 'w') as f:
+        f.write('\n'.join(lines) + '\n')
+    return d
+
+
+def timers(ctx, quick):
+    """A peer that goes silent without closing the transport: with keepalive
+    configured the connection is given up within (count_max + 1) intervals
+    of the last input and every pending operation fails; a peer that stalls
+    before authentication completes is dropped at login_timeout."""
+    from harness.drivers import keepalive
+    # the peer answers within a round trip of 2 * D < I ticks
+    grid = [(3, 1, 1), (3, 2, 1), (5, 2, 2)] if quick else \
+        [(3, 1, 1), (3, 2, 1), (5, 2, 2), (4, 3, 1), (5, 1, 2), (7, 1, 3)]
+    for i_, mx, d_ in grid:
+        tag = f'c09_ka_{i_}_{mx}_{d_}'
+        # (asyncssh refuses keepalive_count_max = 0, so Max >= 1)
+        _tcfg(f'_{tag}.cfg', dict(I=i_, Max=mx, D=d_,
+                                  MaxTime=(mx + 2) * i_ + 6),
+              [i for i in TINVS if mx > 0 or i != 'NoFalseAlarm'])
+        res = tlc.run(TSPEC, 'Keepalive', f'_{tag}.cfg', tag, timeout=900)
+        ctx.require_tlc_ok(f'Keepalive I={i_} Max={mx} D={d_}', res)
+        tlc.cleanup(tag)
+        os.remove(os.path.join(TSPEC, f'_{tag}.cfg'))
+    for tag, consts, inv in (
+            ('c09_ka_sens', dict(ResetOnReplyOnly='FALSE'), 'NoFalseAlarm'),
+            ('c09_ka_obs', {}, 'NotEarlyAfterAnyInput'),
+            ('c09_ka_w', {}, 'NeverLost')):
+        _tcfg(f'_{tag}.cfg', consts, [inv])
+        res = tlc.run(TSPEC, 'Keepalive', f'_{tag}.cfg', tag, timeout=900)
+        ctx.require_tlc_ok(f'Keepalive {tag}', res, expect_violation=inv)
+        tlc.cleanup(tag)
+        os.remove(os.path.join(TSPEC, f'_{tag}.cfg'))
+    total = 0
+    for i_, mx, d_ in grid:
+        tag = f'c09_kasim_{i_}_{mx}_{d_}'
+        d = _tcfg(f'_{tag}.cfg', dict(I=i_, Max=mx, D=d_,
+                                      MaxTime=(mx + 2) * i_ + 6), view=False)
+        out = tlc.workdir(tag + '_out')
+        res = tlc.run(TSPEC, 'Keepalive', f'_{tag}.cfg', tag, workers=4,
+                      timeout=600,
+                      simulate=f'file={out}/tr,num={8 if quick else 80}',
+                      depth=60, seed=ctx.seed + 31)
+        if res.error and res.error != 'timeout':
+            raise MachineryError(f'simulate {tag}: {res.error}')
+        traces = [[(st['lbl'], st) for _, st in steps[1:]]
+                  for _, steps in tlc.read_sim_traces(out, 'tr_')]
+        tlc.cleanup(tag + '_out')
+        tlc.cleanup(tag)
+        os.remove(os.path.join(TSPEC, f'_{tag}.cfg'))
+        ctx.require(traces, f'no keepalive behaviours for {tag}')
+        for steps in traces:
+            for role in 'cs':
+                r = keepalive.replay(steps, role, i_, mx)
+                total += 1
+                ctx.count(('keepalive', i_, mx, role,
+                           tuple(map(str, r['script']))),
+                          nontrivial=any(l[0] == 'silent'
+                                         for l in r['script']))
+                hard = [b for b in r['l1'] if b.startswith(
+                    ('DeadPeerDetected', 'AllWaitersResolved'))]
+                soft = [b for b in r['l1'] if b not in hard and
+                        (mx > 0 or not b.startswith('NoFalseAlarm'))]
+                if hard:
+                    ctx.violation({'module': 'Keepalive', 'role': role,
+                                   'clauses': sorted({b.split(':')[0]
+                                                      for b in hard})},
+                                  f'interval {i_} count max {mx} role {role}: '
+                                  + '; '.join(hard[:3]),
+                                  replay={'kind': 'keepalive', 'role': role,
+                                          'interval': i_, 'count_max': mx,
+                                          'script': r['script']})
+                for b in soft:
+                    ctx.divergence(f'keepalive {role} I={i_} Max={mx}: {b} '
+                                   f'script={r["script"]}')
+                if r['diverged']:
+                    ctx.divergence(f'keepalive {role} I={i_} Max={mx}: '
+                                   f'{r["diverged"]} script={r["script"]}')
+                if r['loop_exceptions']:
+                    ctx.divergence(f'keepalive {role}: loop exception '
+                                   f'{r["loop_exceptions"][0]}')
+    ctx.traces_validated(total)
+    for stall in ('connect', 'kex', 'service', 'failed_auth', 'auth'):
+        for timeout in ((5.0,) if quick else (5.0, 1.0, 30.0)):
+            at, info = keepalive.login_timeout_case(stall, timeout)
+            ctx.count(('login_timeout', stall, timeout))
+            ctx.require('setup_error' not in info,
+                        f'login timeout case {stall}: {info}')
+            if stall == 'auth':
+                if at is not None:
+                    ctx.divergence(f'login timeout: authenticated connection '
+                                   f'dropped at t={at} (limit {timeout})')
+            elif at is None:
+                ctx.violation({'module': 'LoginTimeout', 'stall': stall},
+                              f'a peer that stalls after "{stall}" is never '
+                              f'dropped although login_timeout={timeout}',
+                              replay={'kind': 'login_timeout', 'stall': stall,
+                                      'timeout': timeout})
+            elif at != timeout:
+                ctx.divergence(f'login timeout: stalled peer ({stall}) '
+                               f'dropped at t={at}, limit {timeout}')
+
+
 def main(ctx):
     from harness.drivers import lifecycle, crashpoints
     quick = ctx.tier == 'quick'
@@ -232,6 +348,8 @@ def main(ctx):
                                           'scenario': sname, 'fault': kind})
     N = total_points
     ctx.coverage['crash_points'] = N
+    # ---- 4. silent peers: keepalive and login timeout (specs/Timers) ----
+    timers(ctx, quick)
     ctx.assumptions += [
         'both endpoints are asyncssh (a peer that never answers CLOSE while '
         'the connection stays up is outside the property)',
